@@ -16,6 +16,7 @@
 #endif
 #include <new>
 #include <stdexcept>
+#include <cmath>
 using namespace vlog;
 
 // ---- block registry: which allocation (and slot) an address belongs to ------------------------------
@@ -62,6 +63,10 @@ struct Tracked {
 };
 static int val_of(const Tracked &t) { return t.value(); }
 static int val_of(int t) { return t; }
+// double elements: codes 1000 / 1001 / 1002 stand for +0.0 / -0.0 / NaN (values whose == is not byte equality)
+static int val_of(double d) { if (d != d) return 1002; if (d == 0) return std::signbit(d) ? 1001 : 1000; return (int)d; }
+template <class E> static E from_code(long v) { return E((int)v); }
+template <> double from_code<double>(long v) { return v == 1000 ? 0.0 : v == 1001 ? -0.0 : v == 1002 ? std::nan("") : (double)v; }
 
 // ---- containers -----------------------------------------------------------------------------------------------
 template <class E> struct DynTraits { typedef igris::vector<E, TrackAlloc<E>> type; static const bool is_static = false; };
@@ -84,7 +89,7 @@ template <class Cn, class E, bool Static> struct Runner {
     void op(const std::vector<std::string> &t) {
         const std::string &name = t[0]; int k = num(t[1]); long a = t.size() > 2 ? num(t[2]) : 0, b = t.size() > 3 ? num(t[3]) : 0; long ret = 0; int threw = 0; int d = (int)a; std::vector<long long> srcv;
         if (name == "Create") { prep(k); new (&c(k)) Cn(); exists[k] = true; reg(k); }
-        else if (name == "CreateFrom") { auto vs = list(t[2]); std::vector<E> src; for (auto v : vs) { src.push_back(E((int)v)); srcv.push_back(v); } a = 0; prep(k);
+        else if (name == "CreateFrom") { auto vs = list(t[2]); std::vector<E> src; for (auto v : vs) { src.push_back(from_code<E>(v)); srcv.push_back(v); } a = 0; prep(k);
             if constexpr (Static) { // register the inline storage before the constructor fills it
                 g_blocks.push_back(Block{(char *)c(k).data(), (sizeof(Cn) - sizeof(size_t)) / sizeof(E), sizeof(E), g_next_id, true}); { Ev e("Alloc"); e.i("b", g_next_id).i("n", (sizeof(Cn) - sizeof(size_t)) / sizeof(E)); e.end(); } ++g_next_id; }
             if (b == 0) { if constexpr (requires { Cn(src.data(), src.data() + src.size()); }) new (&c(k)) Cn(src.data(), src.data() + src.size()); else unsupported(name); }
@@ -94,8 +99,8 @@ template <class Cn, class E, bool Static> struct Runner {
             else unsupported(name);
             exists[k] = true; }
         else if (name == "Destroy") { c(k).~Cn(); exists[k] = false; unreg(k); }
-        else if (name == "PushBack") { E v((int)a); c(k).push_back(v); }
-        else if (name == "EmplaceBack") { c(k).emplace_back((int)a); }
+        else if (name == "PushBack") { E v(from_code<E>(a)); c(k).push_back(v); }
+        else if (name == "EmplaceBack") { if constexpr (std::is_same<E, double>::value) c(k).emplace_back(from_code<E>(a)); else c(k).emplace_back((int)a); }
         else if (name == "Erase") { if constexpr (requires { c(k).erase(c(k).begin(), c(k).begin()); }) c(k).erase(c(k).begin() + a, c(k).begin() + b); else unsupported(name); }
         else if (name == "Resize") { c(k).resize(a); }
         else if (name == "Clear") { c(k).clear(); }
@@ -109,8 +114,8 @@ template <class Cn, class E, bool Static> struct Runner {
         else if (name == "Front") { ret = val_of(c(k).front()); }
         else if (name == "Back") { ret = val_of(c(k).back()); }
         else if constexpr (!Static) {
-            if (name == "Insert") { E v((int)b); auto it = c(k).insert(c(k).begin() + a, v); ret = it - c(k).begin(); }
-            else if (name == "Emplace") { auto it = c(k).emplace(c(k).begin() + a, (int)b); ret = it - c(k).begin(); }
+            if (name == "Insert") { E v(from_code<E>(b)); auto it = c(k).insert(c(k).begin() + a, v); ret = it - c(k).begin(); }
+            else if (name == "Emplace") { auto it = std::is_same<E, double>::value ? c(k).emplace(c(k).begin() + a, from_code<E>(b)) : c(k).emplace(c(k).begin() + a, (int)b); ret = it - c(k).begin(); }
             else if (name == "EraseAt") { c(k).erase(c(k).begin() + a); }
             else if (name == "PopBack") { c(k).pop_back(); }
             else if (name == "Reserve") { c(k).reserve(a); }
@@ -129,7 +134,7 @@ template <class Cn, class E, bool Static> struct Runner {
 struct Any { virtual void op(const std::vector<std::string> &) = 0; virtual void finish() = 0; virtual ~Any() {} };
 template <class Cn, class E, bool S> struct Impl : Any { Runner<Cn, E, S> r; void op(const std::vector<std::string> &t) override { r.op(t); } void finish() override { r.finish(); } };
 static Any *make(const std::string &kind, const std::string &elem, int N) {
-    if (kind == "vec") { if (elem == "tracked") return new Impl<igris::vector<Tracked, TrackAlloc<Tracked>>, Tracked, false>(); return new Impl<igris::vector<int, TrackAlloc<int>>, int, false>(); }
+    if (kind == "vec") { if (elem == "tracked") return new Impl<igris::vector<Tracked, TrackAlloc<Tracked>>, Tracked, false>(); if (elem == "dbl") return new Impl<igris::vector<double, TrackAlloc<double>>, double, false>(); return new Impl<igris::vector<int, TrackAlloc<int>>, int, false>(); }
     if (elem == "tracked") { if (N == 1) return new Impl<igris::static_vector<Tracked, 1>, Tracked, true>(); if (N == 2) return new Impl<igris::static_vector<Tracked, 2>, Tracked, true>(); if (N == 3) return new Impl<igris::static_vector<Tracked, 3>, Tracked, true>(); if (N == 4) return new Impl<igris::static_vector<Tracked, 4>, Tracked, true>(); if (N == 5) return new Impl<igris::static_vector<Tracked, 5>, Tracked, true>(); if (N == 300) return new Impl<igris::static_vector<Tracked, 300>, Tracked, true>(); fprintf(stderr, "capacity %d is not instantiated\n", N); exit(3); }
     if (N == 1) return new Impl<igris::static_vector<int, 1>, int, true>(); if (N == 2) return new Impl<igris::static_vector<int, 2>, int, true>(); if (N == 3) return new Impl<igris::static_vector<int, 3>, int, true>(); if (N == 4) return new Impl<igris::static_vector<int, 4>, int, true>(); if (N == 5) return new Impl<igris::static_vector<int, 5>, int, true>(); if (N == 300) return new Impl<igris::static_vector<int, 300>, int, true>(); fprintf(stderr, "capacity %d is not instantiated\n", N); exit(3);
 }
